@@ -51,6 +51,7 @@ public:
      */
     void worker() {
         _current = this;
+        COCLS_VERIF_POINT("p_lock");
         std::unique_lock lk(_mx);
         for(;;) {
             _cond.wait(lk, [&]{return !_queue.empty() || _exit;});
@@ -61,6 +62,7 @@ public:
             h();
             //if _current is nullptr, thread_pool has been destroyed
             if (_current == nullptr) return;
+            COCLS_VERIF_POINT("p_lock");
             lk.lock();
         }
     }
@@ -73,6 +75,7 @@ public:
         decltype(_threads) tmp;
         decltype(_queue) q;
         {
+            COCLS_VERIF_POINT("p_lock");
             std::unique_lock lk(_mx);
             _exit = true;
             _cond.notify_all();
@@ -351,6 +354,7 @@ protected:
 
 
     void enqueue(q_item &&fn) {
+        COCLS_VERIF_POINT("p_lock");
         std::lock_guard _(_mx);
         if (!_exit) {
             _queue.push(std::move(fn));
